@@ -61,3 +61,8 @@ def e2e(ctx):
         ctx.violation("C05:e2e:stored-allocation", "end-to-end: a stored pin has an empty or over-max allocation list", recs[i - 1])
     for i in v["stuck"][:1]:
         ctx.violation("C05:recover:direct-over-recursive", "end-to-end run reached the tolerated direct-over-recursive class", recs[i - 1])
+
+
+def replay(ctx, path):
+    ctx.rule = "replay of one stored script"
+    tc.replay_script(ctx, path, ["converge", "recover", "nodrop"])
